@@ -389,6 +389,35 @@ def wrapper_store_modes():
     return out
 
 
+def simple_store_modes():
+    """{kind: mode} for ClassReference (TypedField.__set__ stores the instance it is given), StructureReference (builds a
+    new structure from the dict) and Anything (no `__set__` of its own: `Field.__set__` puts the value into
+    `instance.__dict__`)"""
+    out = {}
+    st = _parse("structures/structures.py")
+    fn = _find(st, "TypedField", "__set__")
+    x = _final_store_arg(fn) if fn is not None else None
+    if x is not None:
+        out["struct"] = "alias" if isinstance(x, ast.Name) and x.id == "value" else "rebuild"
+    fn = _find(_parse("fields/structure_reference.py"), "StructureReference", "__set__")
+    x = _final_store_arg(fn) if fn is not None else None
+    if x is not None:
+        if isinstance(x, ast.Name) and x.id != "value":
+            binds = [a.value for a in ast.walk(fn) if isinstance(a, ast.Assign)
+                     and any(isinstance(t, ast.Name) and t.id == x.id for t in a.targets)]
+            out["inline"] = "rebuild" if binds and all(isinstance(b, ast.Call) for b in binds) else "alias"
+        else:
+            out["inline"] = "alias" if isinstance(x, ast.Name) else "rebuild"
+    anything = [n for n in _parse("fields/anything.py").body if isinstance(n, ast.ClassDef) and n.name == "Anything"]
+    fn = _find(st, "Field", "__set__")
+    if anything and fn is not None and not any(isinstance(m, ast.FunctionDef) and m.name == "__set__" for m in anything[0].body):
+        stores = [a for a in ast.walk(fn) if isinstance(a, ast.Assign) and isinstance(a.targets[0], ast.Subscript)
+                  and "__dict__" in ast.unparse(a.targets[0])]
+        if stores:
+            out["any"] = "alias" if any(isinstance(a.value, ast.Name) and a.value.id == "value" for a in stores) else "rebuild"
+    return out
+
+
 def private_copy_skips_tuples():
     """`_private_copy` (multified_wrappers.py) deep-copies the value when `isinstance(value, (<kinds>))`: True when the
     kinds do not include `tuple` (a tuple holding mutable elements is then stored as given); None without the helper"""
@@ -584,6 +613,9 @@ def ast_readings():
                 out[(op, kind, "tupl")] = "alias" if (m == "alias" or skips) else m
             elif kind == "anyOf":
                 out[(op, kind, "tupl")] = m
+    for kind, m in simple_store_modes().items():
+        for op in ("construct", "setattr"):
+            out[(op, kind, "none")] = m
     # Set / ImmutableSet / Tuple `__set__`
     for (kind, typed), m in coll_store_modes().items():
         cats = ("untyped",) if typed == "untyped" else ("number", "string", "scalar", "any", "coll", "struct", "inline", "wrap")
